@@ -12,21 +12,24 @@ from rv import ToolError, log
 PLAN = {
     "C01": [("core", "dev"), ("ctl", "dev"), ("shape", "dev")],
     "C03": [("shape", "dev"), ("core", "dev")],
-    "C04": [("sizes", "dev"), ("sizes", "release"), ("core", "dev")],
+    "C04": [("sizes", "dev"), ("sizes", "release"), ("core", "dev"), ("ro", "dev")],
     "C05": [("reopen", "dev")],
     "C08": [("core", "dev"), ("ctl", "dev"), ("reopen", "dev")],
     "C09": [("ro", "dev"), ("reopen", "dev")],
     "C10": [("core", "dev"), ("shape", "dev")],
     "C11": [("core", "dev"), ("ctl", "dev"), ("sizes", "dev")],
-    "C16": [("layout", "dev"), ("core", "dev")],
+    "C16": [("layout", "dev"), ("core", "dev"), ("reopen", "dev")],
     "C17": [("ctl", "dev"), ("ctl", "release")],
-    "C18": [("ctl", "dev")],
-    "C20": [("core", "dev"), ("ctl", "dev")],
+    "C18": [("ctl", "dev"), ("ro", "dev")],
+    "C20": [("core", "dev"), ("ctl", "dev"), ("ro", "dev")],
 }
 
 # C04 says "either returns a handle satisfying C01/C03 or a clean error": on the request-size suite a malformed or
 # misplaced handle is a C04 violation as well
-ALSO = {"C04": {"sizes": ("C01", "C03")}}
+ALSO = {"C04": {"sizes": (("C01", None), ("C03", None)), "ro": (("C09", ("ab", "at", "aa")),)},
+        # the read-only clauses of C18 / C20 are judged by the read-only predicates (listed under C09) on the same events
+        "C18": {"ro": (("C09", ("truncate",)),)},
+        "C20": {"ro": (("C09", ("discard",)),)}}
 
 RULES = {
     "C05": ("reopen events (state before close compared with state after open)", lambda st: st.get("reopen", 0)),
@@ -94,8 +97,17 @@ def run(prop, tier, seed):
         for k, v in r["stats"].items():
             stats_total[k] = stats_total.get(k, 0) + v
         also = ALSO.get(prop, {}).get(r["suite"], ())
+
+        def counts(v):
+            if v["prop"] == prop:
+                return True
+            for (p2, kinds) in also:
+                if v["prop"] == p2 and (kinds is None or ((v.get("op") or {}).get("k") in kinds)):
+                    return True
+            return False
+
         for v in r["viol"]:
-            if v["prop"] == prop or v["prop"] in also:
+            if counts(v):
                 v = dict(v)
                 if v["prop"] != prop:
                     v["pred"] = "%s.%s" % (v["prop"], v["pred"])
